@@ -5,17 +5,17 @@ package harness
 // how the controller schedules. Together with the decision list it replays
 // exactly.
 type Plan struct {
-	Family   string                  `json:"family"`
-	Seed     int64                   `json:"seed"`
-	Urgent   bool                    `json:"urgent"` // clock advances only when no internal step is pending
-	Sched    string                  `json:"sched"`  // "random" | "pct" | "replay" | "free"
-	Depth    int                     `json:"depth,omitempty"`
-	Lanes    [][]Cmd                 `json:"lanes"`
-	Clients  [][]Req                 `json:"clients"`
-	Targets  map[string]TargetScript `json:"targets"`
-	MaxSteps int                     `json:"max_steps"`
-	SettleMs int                     `json:"settle_ms"`
-	QuantumMs int                    `json:"quantum_ms"`
+	Family    string                  `json:"family"`
+	Seed      int64                   `json:"seed"`
+	Urgent    bool                    `json:"urgent"` // clock advances only when no internal step is pending
+	Sched     string                  `json:"sched"`  // "random" | "pct" | "replay" | "free"
+	Depth     int                     `json:"depth,omitempty"`
+	Lanes     [][]Cmd                 `json:"lanes"`
+	Clients   [][]Req                 `json:"clients"`
+	Targets   map[string]TargetScript `json:"targets"`
+	MaxSteps  int                     `json:"max_steps"`
+	SettleMs  int                     `json:"settle_ms"`
+	QuantumMs int                     `json:"quantum_ms"`
 	// Decisions to replay (Sched == "replay") or advice labels.
 	Decisions []string `json:"decisions,omitempty"`
 	// Points that actually park goroutines; empty = all.
@@ -37,22 +37,22 @@ type Cmd struct {
 	Pct             int      `json:"pct,omitempty"`
 	Allow           []string `json:"allow,omitempty"`
 	// service/target options
-	TLS          bool   `json:"tls,omitempty"`
-	TLSRedirect  bool   `json:"tls_redirect,omitempty"`
-	CertPath     string `json:"cert,omitempty"`
-	KeyPath      string `json:"key,omitempty"`
-	ErrorPages   string `json:"error_pages,omitempty"`
-	StripPrefix  bool   `json:"strip,omitempty"`
-	HCIntervalMs int    `json:"hc_interval,omitempty"`
-	HCTimeoutMs  int    `json:"hc_timeout,omitempty"`
-	HCPath       string `json:"hc_path,omitempty"`
-	RespTimeoutMs int   `json:"resp_timeout,omitempty"`
-	BufReq       bool   `json:"buf_req,omitempty"`
-	BufResp      bool   `json:"buf_resp,omitempty"`
-	MaxMem       int64  `json:"max_mem,omitempty"`
-	MaxReqBody   int64  `json:"max_req_body,omitempty"`
-	MaxRespBody  int64  `json:"max_resp_body,omitempty"`
-	ForwardHdrs  bool   `json:"forward_headers,omitempty"`
+	TLS           bool   `json:"tls,omitempty"`
+	TLSRedirect   bool   `json:"tls_redirect,omitempty"`
+	CertPath      string `json:"cert,omitempty"`
+	KeyPath       string `json:"key,omitempty"`
+	ErrorPages    string `json:"error_pages,omitempty"`
+	StripPrefix   bool   `json:"strip,omitempty"`
+	HCIntervalMs  int    `json:"hc_interval,omitempty"`
+	HCTimeoutMs   int    `json:"hc_timeout,omitempty"`
+	HCPath        string `json:"hc_path,omitempty"`
+	RespTimeoutMs int    `json:"resp_timeout,omitempty"`
+	BufReq        bool   `json:"buf_req,omitempty"`
+	BufResp       bool   `json:"buf_resp,omitempty"`
+	MaxMem        int64  `json:"max_mem,omitempty"`
+	MaxReqBody    int64  `json:"max_req_body,omitempty"`
+	MaxRespBody   int64  `json:"max_resp_body,omitempty"`
+	ForwardHdrs   bool   `json:"forward_headers,omitempty"`
 	// WaitMs: virtual time the lane waits before issuing this command
 	// (0 = as soon as the controller lets it).
 	WaitMs int `json:"wait,omitempty"`
